@@ -17,7 +17,7 @@ from .c07 import ELT, install_elem_order
 
 MANIFEST_ENTRY = {
     'category': 'other',
-    'text': "symbolic-bounded relational check: each function that enumerates the host container of a set or map (collection enumeration for loops and comprehensions, spread in calls and list literals, destructuring, conversions between list/set/map/object, rendering, hashing, set arithmetic, membership, sum, ls, zip_map) is executed twice on the same abstract content of up to 3 elements (element values symbolic, ordered by an abstract injective rank) under two independent iteration orders of the host container, and the two outcomes must be equal; the seeded pseudo-random generator is proved to read and write only the module-level seed; plus the property's own experiment in small: generated programs run in fresh processes under 8 (thorough: 32) string-hash seeds must print identical text; stand-ins: consistency of the value order across kinds (asymmetric, total on unequal values, transitive) over a pool of values of every kind on the real classes, permutation invariance of sorted() on mixed lists, and the same program in fresh processes under different hash seeds; proved for all values: the value order that sorted() uses is a strict total order across all data kinds - mode lemmas on the real __lt__ of every ordered pair of kinds (by rendered text / numeric / date numeral), shape lemmas on the real __repr__ of every kind (first-character classes, sign link, distinguishing prefixes), and the order theorem over the two tables (irreflexive, asymmetric, transitive, total on values that differ) with texts abstracted to (first character, tail), justified by a lemma on z3 strings; comprehensions over sets and maps see their elements in sorted order (relational units)",
+    'text': "symbolic-bounded relational check: each function that enumerates the host container of a set or map (collection enumeration for loops and comprehensions, spread in calls and list literals, destructuring, conversions between list/set/map/object, rendering, hashing, set arithmetic, membership, sum, ls, zip_map) is executed twice on the same abstract content of up to 3 elements (element values symbolic, ordered by an abstract injective rank) under two independent iteration orders of the host container, and the two outcomes must be equal; the seeded pseudo-random generator is proved to read and write only the module-level seed; plus the property's own experiment in small: generated programs run in fresh processes under 8 (thorough: 32) string-hash seeds must print identical text; stand-ins: consistency of the value order across kinds (asymmetric, total on unequal values, transitive) over a pool of values of every kind on the real classes, permutation invariance of sorted() on mixed lists, and the same program in fresh processes under different hash seeds; proved for all values: the value order that sorted() uses is a strict total order across all data kinds - mode lemmas on the real __lt__ of every ordered pair of kinds (by rendered text / numeric / date numeral), shape lemmas on the real __repr__ of every kind (first-character classes, sign link, distinguishing prefixes), and the order theorem over the two tables (irreflexive, asymmetric, transitive, total on values that differ) with texts abstracted to (first character, tail), justified by a lemma on z3 strings; comprehensions over sets and maps see their elements in sorted order (relational units); the same call of set_seed/random in two processes (string hashes modelled as a function of the process) gives the same result and generator state; map -> object conversion",
     'note': "container size <= 3 is a bound, not a proof; sorted() canonicalises only when __lt__ is a strict total order on the elements (C07: same-kind elements); CPython dicts preserve insertion order and a set's order is fixed during one iteration (assumed); the order theorem excludes NaN, objects with a user-defined _str_, and streams/nodes as set elements; repr(float) and strftime shapes are assumed host contracts",
     'technique': 'contract-based relational check on the real AST with a permutation model of host containers (pyvc + z3, symbolic-bounded); bounded multi-process runs under different hash seeds',
 }
